@@ -7,6 +7,12 @@ use std::time::Instant;
 
 pub const VERIF_DIR: &str = "/verif";
 
+/// Where evidence and replay files go (overridable for the development-time mutation audit, which must not
+/// disturb the committed evidence).
+pub fn out_dir() -> String {
+    std::env::var("VERIF_OUT_DIR").unwrap_or_else(|_| VERIF_DIR.to_string())
+}
+
 #[derive(Clone, Copy, Debug, PartialEq, Eq)]
 pub enum Tier {
     Quick,
@@ -238,10 +244,10 @@ pub fn finish(ctx: &Ctx, tally: Tally, rep: Report) -> i32 {
         }
     }
     let mut replay_paths = Vec::new();
-    let _ = std::fs::create_dir_all(format!("{}/replays", VERIF_DIR));
+    let _ = std::fs::create_dir_all(format!("{}/replays", out_dir()));
     for (i, v) in uniq.iter().enumerate().take(25) {
         let h = crate::prng::fnv64(format!("{}|{}|{}", ctx.prop, v.signature, v.detail).as_bytes());
-        let path = format!("{}/replays/{}-{:016x}.json", VERIF_DIR, ctx.prop, h);
+        let path = format!("{}/replays/{}-{:016x}.json", out_dir(), ctx.prop, h);
         let j = J::obj()
             .set("property", J::s(ctx.prop))
             .set("monitor", J::s(v.monitor.clone()))
@@ -329,8 +335,8 @@ pub fn finish(ctx: &Ctx, tally: Tally, rep: Report) -> i32 {
         .set("assumptions", J::strs(rep.assumptions.clone()))
         .set("wall_s", J::Num((ctx.start.elapsed().as_millis() as f64) / 1000.0))
         .set("violations", J::i(uniq.len() as i64));
-    let _ = std::fs::create_dir_all(format!("{}/evidence", VERIF_DIR));
-    let path = format!("{}/evidence/{}.json", VERIF_DIR, ctx.prop);
+    let _ = std::fs::create_dir_all(format!("{}/evidence", out_dir()));
+    let path = format!("{}/evidence/{}.json", out_dir(), ctx.prop);
     if let Err(e) = std::fs::write(&path, ev.pretty()) {
         println!("INCONCLUSIVE property={} cannot write evidence: {}", ctx.prop, e);
         return 2;
